@@ -94,6 +94,12 @@ class DisplayWidgetProtocol(WidgetProtocol):
     kind = "DisplayWidget"
     attrs = {"focus": Opt(Opaque("DisplayRow"))}
 
+    def uf_value(self, st, name, recv, argterms, shape, ver):
+        # one family of uninterpreted functions with the widget protocol (its assumed clauses name PROTOCOLS["Widget"])
+        from pyvc.protocol import uf_shape_value
+
+        return uf_shape_value(st, f"Widget.{name}", [recv.e, z3.IntVal(ver)] + list(argterms), shape)
+
     def getattr(self, ip, st, obj, name):
         r = Protocol.getattr(self, ip, st, obj, name)
         if name == "focus":
@@ -548,3 +554,100 @@ class gf_pack:
             if ev and ev[0][0] == "refresh":
                 yield "rows-of-that-display-widget", result[1] == W.call_quiet(cur(), ev[0][2], "rows", dict(size=(cols,), focus=a.focus))
         yield "focus-and-cells-untouched", _same_cells(old, s)
+
+
+def _focus_follows(old, s, d):
+    want = _at_exit(lambda: display_focus_cell(cur(), d))
+    return s._contents._focus == want if want is not None else s._contents._focus == old._contents._focus
+
+
+def _cursor_query(method, result_shape, prop):
+    @_entry(method, property=prop)
+    class _q:
+        self_shape = GRIDFLOW
+        params = dict(size=GSIZE)
+        result = result_shape
+        invariant = staticmethod(gf_inv)
+        # an empty GridFlow's display widget is a lone Divider, whose class has no cursor protocol: reading the
+        # delegating property raises AttributeError, which is how hasattr(gridflow, method) comes out False
+        raises = (AttributeError,)
+        modifies = ("_wrapped_widget", "_cache_maxcol")
+
+        def requires(s, a):
+            return gf_wf(s)
+
+        def ensures(old, s, a, result):
+            W = PROTOCOLS["Widget"]
+            yield "has-cells", n_cells(old) > 0
+            clauses, call, d = _refreshed_then(method, a, ("size",))
+            yield from clauses
+            if call is None:
+                return
+            yield "answer-of-the-display-widget-for-this-size", opt_same(result, call[4])
+            if method == "get_cursor_coords":
+                # C09: the cursor reported without rendering is the cursor of the focused rendering (of what render() draws:
+                # the display widget for this size)
+                canv = W.call_quiet(cur(), d, "render", dict(size=a.size, focus=True))
+                yield "equals-the-cursor-of-the-focused-rendering", opt_eq_shift(result, canv.cursor, 0, 0)
+            yield "focus-and-cells-untouched", _same_cells(old, s)
+
+        def on_raise(old, s, a, exc):
+            yield "only-an-empty-gridflow-lacks-the-cursor-protocol", n_cells(old) == 0
+            yield "focus-and-cells-untouched", _same_cells(old, s)
+
+    _q.__name__ = f"gf_{method}"
+    return _q
+
+
+gf_gcc = _cursor_query("get_cursor_coords", Opt(Tup(Int, Int)), ("C09", "C06"))
+gf_gpc = _cursor_query("get_pref_col", Opt(Int), "C09")
+
+
+@_entry("move_cursor_to_coords", property=("C09", "C08"))
+class gf_mctc:
+    self_shape = GRIDFLOW
+    params = dict(size=GSIZE, col=Int, row=Int)
+    result = Bool
+    invariant = staticmethod(gf_inv)
+    raises = (AttributeError,)
+    modifies = ("_wrapped_widget", "_cache_maxcol")
+
+    def requires(s, a):
+        return gf_wf(s)
+
+    def ensures(old, s, a, result):
+        yield "has-cells", n_cells(old) > 0
+        clauses, call, d = _refreshed_then("move_cursor_to_coords", a, ("size", "col", "row"))
+        yield from clauses
+        if call is None:
+            return
+        # C09: succeeds exactly when the (display) widget accepts the same cell -- nothing is translated
+        yield "answer-of-the-display-widget-for-this-size", eq(result, call[4])
+        yield "focus-follows-the-display-widget", _focus_follows(old, s, d)
+        yield "cells-untouched", n_cells(s) == n_cells(old)
+
+    def on_raise(old, s, a, exc):
+        yield "only-an-empty-gridflow-lacks-the-cursor-protocol", n_cells(old) == 0
+        yield "focus-and-cells-untouched", _same_cells(old, s)
+
+
+@_entry("mouse_event", property=("C09", "C08"))
+class gf_mouse:
+    self_shape = GRIDFLOW
+    params = dict(size=GSIZE, event=Opaque("Key"), button=Int, col=Int, row=Int, focus=Bool)
+    result = Bool
+    invariant = staticmethod(gf_inv)
+    raises = ()
+    modifies = ("_wrapped_widget", "_cache_maxcol")
+
+    def requires(s, a):
+        return gf_wf(s)
+
+    def ensures(old, s, a, result):
+        clauses, call, d = _refreshed_then("mouse_event", a, ("size", "event", "button", "col", "row", "focus"))
+        yield from clauses
+        if call is None:
+            return
+        yield "always-handled", result == True  # noqa: E712
+        yield "focus-follows-the-display-widget", _focus_follows(old, s, d)
+        yield "cells-untouched", n_cells(s) == n_cells(old)
